@@ -568,15 +568,23 @@ func (s *Store[K, V]) removeEntry(entry *Entry[K, V], reason RemoveReason) {
 	_, index := s.index(entry.key)
 	shard := s.shards[index]
 
+	var deleted bool
 	if reason == EXPIRED {
 		// entry might updated already
-		// update expire filed are protected by shard mutex
+		// update expire filed are protected by shard mutex, so the deadline is
+		// re-checked and the map slot taken in one critical section: a concurrent
+		// write that extends the TTL or stores a new value is either seen here or
+		// finds the slot gone and creates a new entry
 		verifExpireYield(entry)
+		shard.mu.Lock()
 		if expire := entry.expire.Load(); expire == 0 || expire > s.timerwheel.clock.NowNano() {
+			shard.mu.Unlock()
 			// not removed: the entry stays tracked by the policy and the UPDATE
 			// event of the write that extended the deadline re-schedules it
 			return
 		}
+		deleted = shard.delete(entry)
+		shard.mu.Unlock()
 	}
 	entry.flag.SetRemoved(true)
 
@@ -608,9 +616,11 @@ func (s *Store[K, V]) removeEntry(entry *Entry[K, V], reason RemoveReason) {
 				}
 			}
 		}
-		shard.mu.Lock()
-		deleted := shard.delete(entry)
-		shard.mu.Unlock()
+		if reason == EVICTED {
+			shard.mu.Lock()
+			deleted = shard.delete(entry)
+			shard.mu.Unlock()
+		}
 		if deleted {
 			k, v := entry.key, entry.value
 			if s.removalListener != nil {
